@@ -122,4 +122,86 @@ theorem afterEnd_append {ρ} (h : Nat) (post : MWal ρ) : ∀ pre : MWal ρ, has
     simp only [List.cons_append, afterEnd, hp.1]
     exact afterEnd_append h post rest (by simpa [hasEnd] using hp.2)
 
+/-! ### search across rotated files -/
+
+theorem hasEnd_append {ρ} (a b : MWal ρ) (h : Nat) : hasEnd (a ++ b) h = (hasEnd a h || hasEnd b h) := by
+  simp [hasEnd, List.any_append]
+
+/-- the last marker a reader has seen at end of log -/
+def lastEnd {ρ} : MWal ρ → Int → Int
+  | [], l => l
+  | .inr k :: r, _ => lastEnd r (k : Int)
+  | .inl _ :: r, l => lastEnd r l
+
+theorem lastEnd_snoc_marker {ρ} (k : Nat) : ∀ (w : MWal ρ) (l : Int), lastEnd (w ++ [Sum.inr k]) l = (k : Int)
+  | [], _ => rfl
+  | .inr _ :: r, _ => by simpa [lastEnd] using lastEnd_snoc_marker k r _
+  | .inl _ :: r, l => by simpa [lastEnd] using lastEnd_snoc_marker k r l
+
+theorem scanFor_found {ρ} (h : Nat) : ∀ (w : MWal ρ) (l : Int), hasEnd w h = true →
+    ∃ rest l', scanFor h w l = (some rest, l')
+  | [], _, hw => by simp [hasEnd] at hw
+  | .inl _ :: r, l, hw => by
+    simp only [scanFor]
+    exact scanFor_found h r l (by simpa [hasEnd] using hw)
+  | .inr k :: r, l, hw => by
+    simp only [scanFor]
+    by_cases hk : (k == h) = true
+    · exact ⟨r, k, by simp [hk]⟩
+    · simp only [hk]
+      have : hasEnd r h = true := by
+        simp only [hasEnd, List.any_cons, Bool.or_eq_true] at hw
+        rcases hw with hw | hw
+        · exact absurd hw hk
+        · simpa [hasEnd] using hw
+      simpa using scanFor_found h r k this
+
+theorem scanFor_none {ρ} (h : Nat) : ∀ (w : MWal ρ) (l : Int), hasEnd w h = false →
+    scanFor h w l = (none, lastEnd w l)
+  | [], _, _ => rfl
+  | .inl _ :: r, l, hw => by
+    simp only [scanFor, lastEnd]
+    exact scanFor_none h r l (by simpa [hasEnd] using hw)
+  | .inr k :: r, l, hw => by
+    simp only [hasEnd, List.any_cons, Bool.or_eq_false_iff] at hw
+    simp only [scanFor, lastEnd, hw.1]
+    exact scanFor_none h r k (by simpa [hasEnd] using hw.2)
+
+theorem hasEnd_suffix {ρ} (files : List (MWal ρ)) (h j : Nat) (hs : hasEnd (files.drop j).flatten h = true) :
+    hasEnd files.flatten h = true := by
+  have : files.flatten = (files.take j).flatten ++ (files.drop j).flatten := by
+    rw [← List.flatten_append, List.take_append_drop]
+  rw [this, hasEnd_append, hs, Bool.or_true]
+
+/-- the loop, when every reader ends on the `#ENDHEIGHT 0` of a fresh head: the early exit
+(`0 < last`) never fires, so the search finds the marker iff some reader meets it -/
+theorem gsearchLoop_fresh_head {ρ} (files : List (MWal ρ)) (h : Nat) :
+    ∀ (i : Nat) (last : Int), i ≤ files.length + 1 →
+      ((gsearchLoop exitGt0 (files ++ [[Sum.inr 0]]) h i last).isSome = true ↔
+        ∃ j, j < i ∧ hasEnd ((files ++ [[Sum.inr 0]]).drop j).flatten h = true)
+  | 0, _, _ => by simp [gsearchLoop]
+  | i+1, last, hi => by
+    have ih := gsearchLoop_fresh_head files h i
+    by_cases hs : hasEnd ((files ++ [[Sum.inr 0]]).drop i).flatten h = true
+    · obtain ⟨rest, l', e⟩ := scanFor_found h _ last hs
+      simp only [gsearchLoop, e, Option.isSome_some, true_iff]
+      exact ⟨i, Nat.lt_succ_self _, hs⟩
+    · have hs' : hasEnd ((files ++ [[Sum.inr 0]]).drop i).flatten h = false := by
+        simpa using hs
+      have hdrop : ((files ++ [[Sum.inr 0]]).drop i).flatten = (files.drop i).flatten ++ [Sum.inr 0] := by
+        rw [List.drop_append_of_le_length (by omega)]; simp
+      have hl : lastEnd ((files ++ [[Sum.inr 0]]).drop i).flatten last = 0 := by
+        rw [hdrop]; exact lastEnd_snoc_marker 0 _ _
+      simp only [gsearchLoop, scanFor_none h _ last hs', hl]
+      have hx : exitGt0 0 (h : Int) = false := by simp [exitGt0]
+      simp only [hx, Bool.false_eq_true, if_false]
+      rw [ih 0 (by omega)]
+      constructor
+      · rintro ⟨j, hj, e⟩; exact ⟨j, by omega, e⟩
+      · rintro ⟨j, hj, e⟩
+        refine ⟨j, ?_, e⟩
+        by_cases hji : j = i
+        · subst hji; exact absurd e hs
+        · omega
+
 end KV.Recovery
